@@ -458,6 +458,14 @@ def group_key(s, name, hint):
     return hint
 
 
+def free_key(d, hint):
+    """a key of the dict that is not in use (after an in-place rename the old key may hold something else)"""
+    key = hint
+    while key in d:
+        key += "'"
+    return key
+
+
 def find_facts(s, name, args):
     text = "(%s %s)" % (name, " ".join(args))
     return [(k, g) for k, grp in s.state_predicates.items() for g in grp if g.untyped_representation == text]
@@ -495,13 +503,26 @@ def apply_mutation(m, built):
                 s.state_predicates[k] = {x for x in s.state_predicates[k] if x is not g}
         return {"found": len(found)}
     if kind == "set-group":
-        key = group_key(s, m["name"], m["key"])
-        s.state_predicates[key] = {make_fact(g) for g in m["facts"]}
-        return {"key": key}
+        # the facts called `name` are replaced; facts of another name living in the same set (renamed in place) stay
+        keys = [k for k, grp in s.state_predicates.items() if any(g.name == m["name"] for g in grp)]
+        for k in keys[1:]:
+            s.state_predicates[k] = {g for g in s.state_predicates[k] if g.name != m["name"]}
+        if keys:
+            key = keys[0]
+            others = [g for g in s.state_predicates[key] if g.name != m["name"]]
+        else:
+            key, others = m["key"], []
+            if s.state_predicates.get(key):
+                key = free_key(s.state_predicates, key)
+        s.state_predicates[key] = {make_fact(g) for g in m["facts"]} | set(others)
+        return {"key": key, "kept": len(others)}
     if kind == "del-group":
         keys = [k for k, grp in s.state_predicates.items() if any(g.name == m["name"] for g in grp)]
         for k in keys:
-            if m.get("how") == "clear":
+            others = [g for g in s.state_predicates[k] if g.name != m["name"]]
+            if others:
+                s.state_predicates[k] = set(others)
+            elif m.get("how") == "clear":
                 s.state_predicates[k].clear()
             else:
                 del s.state_predicates[k]
@@ -532,7 +553,7 @@ def apply_mutation(m, built):
         return {"keys": keys}
     if kind == "put-fluent":
         keys = find_fluents(s, m["fluent"]["name"], m["args"])
-        key = keys[0] if keys else m["key"]
+        key = keys[0] if keys else free_key(s.state_fluents, m["key"])
         s.state_fluents[key] = make_fluent(m["fluent"])
         return {"key": key, "new_key": not keys}
     if kind == "del-fluent":
